@@ -14,6 +14,9 @@
 (*            - start_position and max_length are held from the start      *)
 (*              strobe until the transmission is over;                     *)
 (*            - the start position lies within the data (in words);        *)
+(*            - max_length is any value of its port, 0 .. cfg.mlmax =       *)
+(*              2^max_length_width - 1, which may be smaller or larger than  *)
+(*              the constant;                                                *)
 (*            - generators built without max_length always use the data    *)
 (*              length; for big-endian constants the length limit does not *)
 (*              cut inside a word (lane meaning undocumented there).       *)
@@ -37,8 +40,9 @@ EXTENDS Naturals, Sequences
 CONSTANT MaxLat        \* cycles of latency freedom (see above); the property fixes no timing
 
 VARIABLES cfg,         \* configuration of the generator under test (constant through a behaviour):
-                       \*   [data : Seq(0..255), w : {1,4} bytes per word, big : BOOLEAN (byte order of a word),
-                       \*    haslen : BOOLEAN (has a max_length input), olen : BOOLEAN (has output_length)]
+                       \*   [data : Seq(0..255), w : {1,2,4} bytes per word, big : BOOLEAN (byte order of a word),
+                       \*    haslen : BOOLEAN (has a max_length input), mlmax : largest value of that input,
+                       \*    olen : BOOLEAN (has output_length)]
           phase,       \* "idle" | "streaming" | "finishing" | "zero"
           req,         \* [sp, ml] latched by the start strobe
           k,           \* words of the current transmission accepted so far
@@ -76,6 +80,7 @@ LaneOf(c, r, j, i) == IF c.big THEN WChunk(c, r, j) - i + 1 ELSE i
 LegalReq(c, r) ==
     /\ r.sp < NWordsTotal(c)
     /\ (~c.haslen => r.ml = NBytes(c))
+    /\ (c.haslen => r.ml <= c.mlmax)         \* whole range of the max_length port: 0 .. 2^max_length_width - 1
     /\ (c.big => \A j \in 0..(NW(c, r) - 1) : WValid(c, r, j) = WChunk(c, r, j))
 
 -----------------------------------------------------------------------------
